@@ -10,7 +10,8 @@ tvars == <<vars, l, div>>
 TInit == Init /\ l = 1 /\ div = NoDiv /\ TLCSet(1, 1) /\ TLCSet(2, NoDiv)
 
 Act(ev) ==
-  CASE ev.op = "reset"             -> Reset
+  CASE "fault" \in DOMAIN ev        -> (Unchanged /\ Log([op |-> ev.op, res |-> "fail"]))   \* the operation's storage write failed: no trace
+    [] ev.op = "reset"             -> Reset
     [] ev.op = "confirm"           -> Confirm(ev.p, ev.txs)
     [] ev.op = "confirm_dup"       -> ConfirmDuplicate(ev.b)
     [] ev.op = "confirm_badparent" -> ConfirmBadParent
@@ -29,9 +30,10 @@ TStep ==
      /\ Act(ev)
      /\ div' = IF ev.op = "reset" THEN NoDiv
                ELSE LET r == hist'[Len(hist')].res IN
-                    IF r = ev.res /\ Obs' = ev.obs /\ CutsOK(ev) THEN NoDiv
+                    IF r = ev.res /\ Obs' = ev.obs /\ CutsOK(ev) /\ ("robs" \in DOMAIN ev => ev.robs = Obs') THEN NoDiv
                     ELSE [at |-> l, tr |-> ev.tr, op |-> ev.op, expres |-> r, actres |-> ev.res, exp |-> Obs',
-                          act |-> IF r = ev.res /\ Obs' = ev.obs THEN BadCut(ev) ELSE ev.obs]
+                          act |-> IF r = ev.res /\ Obs' = ev.obs /\ ~CutsOK(ev) THEN BadCut(ev)
+                                  ELSE IF r = ev.res /\ Obs' = ev.obs THEN ev.robs ELSE ev.obs]
   /\ l' = l + 1
 TSpec == TInit /\ [][TStep]_tvars
 
